@@ -4,7 +4,7 @@ import numpy as np
 from common import *
 
 ID = "C15"
-THEOREM_FILES = ["Summer.Props.C15", "Summer.Props.C15PermComps", "Summer.Props.C08Values", "Summer.Props.C05Source", "Summer.Props.C17Glue", "Summer.Props.C17Reach"]
+THEOREM_FILES = ["Summer.Props.C15", "Summer.Props.C15PermComps", "Summer.Props.C08Values", "Summer.Props.C05Source", "Summer.Props.C17Glue"]
 TASK = "task"
 RULE = ("metamorphic on the real code, two builds of the same model matched by (compartment name, sorted strata): (perm) compartments, flow "
         "declarations and strata (with the rows/columns of the mixing matrix) shuffled, two adjacent independent stratifications swapped; "
